@@ -23,6 +23,12 @@ CHECKS["C06"] = dict(
    text="Every execution of 6 drivers mixing reliable, maxRetransmits and maxPacketLifeTime channels (ordered/unordered, a message larger than cwnd) with at most k (quick 2, thorough 3) deviations; at every point whole-message/exact-copy/no-dup/order on partially reliable channels and the C01 clause on reliable ones; at the healed terminal point reliable traffic complete, queues drained and a fresh message delivered on every channel.",
    note="DTLS stand-in; send never suspends; deviation bound k; expiry driven by the virtual clock.",
    design="2/C06")
+CHECKS["C17"] = dict(
+   level="model_checking",
+   technique="differential stateless deviation-bounded model checking (same schedule applied to two real associations / RTP receive pipelines that differ only in sequence-number origins) plus exhaustive enumeration of serial-number comparison pairs",
+   text="Every explored schedule (<= k deviations; quick 1-2, thorough 2-3) of 9 SCTP drivers is executed simultaneously on two real associations differing only in initial TSNs (2^32-1/-3/-8, hence RE-CONFIG sequence numbers) and stream sequence origins (65533..65535); enabled menus, observation logs, queue shapes and terminal verdicts must be identical. RTP side: jitter buffer, NACK generator, receiver statistics and sender history are driven through exhaustive arrival trees from small and near-wrap origins and compared. Serial arithmetic: all 2^32 16-bit pairs (thorough) / all a x 640 boundary offsets (quick), 32-bit boundary product.",
+   note="DTLS stand-in; send never suspends; deviation bound k; origins taken from a listed set next to the wrap points.",
+   design="2/C17")
 NOT_YET = {}
 
 def main():
